@@ -132,11 +132,11 @@ extern int mpt_data_convert_uint8(const uint8_t *from, MPT_TYPE(type) type, void
 			return sizeof(uint16_t);
 		case 'i':
 		case 'u':
-			*((uint32_t *) dest) = val;
+			if (dest) *((uint32_t *) dest) = val;
 			return sizeof(uint32_t);
 		case 'x':
 		case 't':
-			*((uint64_t *) dest) = val;
+			if (dest) *((uint64_t *) dest) = val;
 			return sizeof(uint64_t);
 		
 		case 'f':
@@ -301,7 +301,8 @@ extern int mpt_data_convert_uint16(const uint16_t *from, MPT_TYPE(type) type, vo
 			if (dest) *((double *) dest) = val;
 			return sizeof(double);
 #ifdef _MPT_FLOAT_EXTENDED_H
-		case 'e': *((long double *) dest) = val;
+		case 'e':
+			if (dest) *((long double *) dest) = val;
 			return sizeof(long double);
 #endif
 		case MPT_type_toVector('q'):
